@@ -29,7 +29,7 @@ class ExprMixin:
         if self.guards:
             f = z3.Implies(z3.And(*self.guards) if len(self.guards) > 1 else self.guards[0], f)
         if self.bound:
-            f = z3.ForAll(list(self.bound), f)
+            f = forall(list(self.bound), f)
         return f
 
     def hazard(self, kind, safe, node=None, what=""):
@@ -137,7 +137,7 @@ class ExprMixin:
             k = z3.Const(fresh_name("k"), sort_of(ty.k))
             return z3.And(
                 d_dom(a.t) == d_dom(b.t),
-                z3.ForAll([k], z3.Implies(z3.Select(d_dom(a.t), k),
+                forall([k], z3.Implies(z3.Select(d_dom(a.t), k),
                                           self.equal(Val(ty.v, z3.Select(d_val(a.t), k)), Val(ty.v, z3.Select(d_val(b.t), k))))),
             )
         if isinstance(ty, TObj):
@@ -415,9 +415,9 @@ class ExprMixin:
         R = z3.Const(fresh_name("cat"), sort_of(a.ty))
         na, nb = l_len(a.t), l_len(b.t)
         self.fact(st, l_len(R) == na + nb)
-        self.fact(st, z3.ForAll([j], z3.Implies(z3.And(0 <= j, j < na), l_at(R, j) == l_at(a.t, j)), patterns=[l_at(R, j), l_at(a.t, j)]))
-        self.fact(st, z3.ForAll([j], z3.Implies(z3.And(0 <= j, j < nb), l_at(R, na + j) == l_at(b.t, j)), patterns=[l_at(b.t, j)]))
-        self.fact(st, z3.ForAll([j], z3.Implies(z3.And(na <= j, j < na + nb), l_at(R, j) == l_at(b.t, j - na)), patterns=[l_at(R, j)]))
+        self.fact(st, forall([j], z3.Implies(z3.And(0 <= j, j < na), l_at(R, j) == l_at(a.t, j)), patterns=[l_at(R, j), l_at(a.t, j)]))
+        self.fact(st, forall([j], z3.Implies(z3.And(0 <= j, j < nb), l_at(R, na + j) == l_at(b.t, j)), patterns=[l_at(b.t, j)]))
+        self.fact(st, forall([j], z3.Implies(z3.And(na <= j, j < na + nb), l_at(R, j) == l_at(b.t, j - na)), patterns=[l_at(R, j)]))
         return Val(a.ty, R)
 
     # -- displays ------------------------------------------------------------
@@ -437,10 +437,11 @@ class ExprMixin:
         ety = hint.elem if hint is not None else vals[0].ty
         vals = [self.coerce(v, ety, node) for v in vals]
         ty = TList(ety)
-        arr = z3.Const(fresh_name("arr0"), z3.ArraySort(z3.IntSort(), sort_of(ety)))
+        R = z3.Const(fresh_name("lit"), sort_of(ty))
+        self.fact(st, l_len(R) == len(vals))
         for i, v in enumerate(vals):
-            arr = z3.Store(arr, i, v.t)
-        return Val(ty, l_mk(ty, z3.IntVal(len(vals)), arr))
+            self.fact(st, l_at(R, z3.IntVal(i)) == v.t)
+        return Val(ty, R)
 
     def e_Dict(self, node, st, hint=None):
         if not node.keys:
@@ -539,8 +540,8 @@ class ExprMixin:
         j = z3.Int(fresh_name("j"))
         R = z3.Const(fresh_name("slice"), sort_of(ty))
         self.fact(st, l_len(R) == ln)
-        self.fact(st, z3.ForAll([j], z3.Implies(z3.And(0 <= j, j < ln), l_at(R, j) == l_at(base.t, j + lo)), patterns=[l_at(R, j)]))
-        self.fact(st, z3.ForAll([j], z3.Implies(z3.And(lo <= j, j < lo + ln), l_at(R, j - lo) == l_at(base.t, j)), patterns=[l_at(base.t, j)]))
+        self.fact(st, forall([j], z3.Implies(z3.And(0 <= j, j < ln), l_at(R, j) == l_at(base.t, j + lo)), patterns=[l_at(R, j)]))
+        self.fact(st, forall([j], z3.Implies(z3.And(lo <= j, j < lo + ln), l_at(R, j - lo) == l_at(base.t, j)), patterns=[l_at(base.t, j)]))
         return Val(ty, R)
 
     def e_JoinedStr(self, node, st):
